@@ -235,6 +235,11 @@ def r_tabletype(ctx):
         # (a) which function converts one cell: the one holding `isinstance(<cell>, Constraint)`
         conv_fn, cell = None, None
         cands = [fn] + [f2 for f2 in fbase.methods.values() if f2.name.startswith("_") and any(isinstance(c, ast.Call) and call_name(c) == f2.name for c in ast.walk(fn))]
+        for c in ast.walk(fn):         # module-level helpers the reader calls
+            if isinstance(c, ast.Call) and isinstance(c.func, ast.Name):
+                r0 = repo.resolve_name(fn._module, c.func.id)
+                if isinstance(r0, ast.FunctionDef) and r0 not in cands:
+                    cands.append(r0)
         for f2 in cands:
             for c in ast.walk(f2):
                 if isinstance(c, ast.Call) and call_name(c) == "isinstance" and len(c.args) == 2 and dotted(c.args[1]) == "Constraint" and isinstance(c.args[0], ast.Name):
@@ -288,6 +293,11 @@ def r_tabletype(ctx):
         okd = okd and len(st) == 1 and dotted(st[0].value) == dotted(df[0].targets[0])
         if ok and not okd:
             ok, msg = False, "the table of multipliers does not reuse the labels of the table of constraints / is not stored under the same key"
+        if ok:
+            res = dotted(st[0].targets[0].value)
+            rets = [r for r in ast.walk(fn) if isinstance(r, ast.Return)]
+            if not rets or any(r.value is None or dotted(r.value) != res for r in rets) or flow.conditions_guarding(outer[0]):
+                ok, msg = False, "the reader does not return the dictionary of tables it filled (`%s`) for every table" % res
     ctx.ob("R-READER", "Function.get_class_constraints_duals", ok, msg, loc(fn, fn))
     # the reader computes from the current tables at every call: no write to self, no stored result returned
     from .. import effects
